@@ -152,4 +152,5 @@ if __name__ == "__main__":
     if sys.argv[1] == "confirm":
         print(json.dumps(confirm(sys.argv[2], int(sys.argv[3]), sys.argv[4]), indent=1))
     elif sys.argv[1] == "run":
-        print(json.dumps(run(os.path.abspath(sys.argv[2]), sys.argv[3:]), indent=1))
+        wt = os.environ.get("SEED_WT", "/tmp/wt/seedrun")
+        print(json.dumps(run(os.path.abspath(sys.argv[2]), sys.argv[3:], wt), indent=1))
